@@ -118,6 +118,7 @@ type Exec struct {
 	extraModel []ModelVar
 	paramRootedCache map[*ssa.Function]bool
 	freshRefs map[string]bool
+	lastNow   *Val // result of the most recent time.Now() of the function under verification
 	modActive bool
 	modAllowed []modLoc
 	dry0 bool
